@@ -73,7 +73,7 @@ M64 = 1 << 64
 OOB_MSG = "Array index out of bounds"
 CALL_OFFSET = 1000  # the driver interprets `call` as +1000
 
-PRELUDE_EXTRA = "from guppylang.std.quantum import qubit, discard\nn = guppy.nat_var('n')\n"
+PRELUDE_EXTRA = "import hugr.tys as _ht\nfrom guppylang.std.quantum import qubit, discard\nn = guppy.nat_var('n')\n"
 
 FIXED_SRC = '''
 @guppy.declare
@@ -98,6 +98,17 @@ def inout_linear(xs: array[qubit, n], i: int) -> None:
 @guppy
 def copy_classical(xs: array[int, n]) -> array[int, n]:
     return xs.copy()
+
+@guppy.type(_ht.Bool, copyable=False, droppable=True)
+class Tok:
+    pass
+
+@guppy.declare
+def use(t: Tok) -> None: ...
+
+@guppy
+def inout_affine_custom(xs: array[Tok, n], i: int) -> None:
+    use(xs[i])
 
 @guppy
 def loop_linear(qs: array[qubit, 3] @owned) -> None:
@@ -412,7 +423,8 @@ def extract_fixed():
     import c19_ssa as S
     m = _lower(FIXED_SRC)
     progs, notes = {}, []
-    for nm in ["getitem_classical", "getitem_classical_fixed", "setitem_classical", "inout_linear", "copy_classical"]:
+    for nm in ["getitem_classical", "getitem_classical_fixed", "setitem_classical", "inout_linear", "copy_classical",
+               "inout_affine_custom"]:
         h = feed.lower(getattr(m, nm)).hugr
         progs[nm], sig = _block_prog(h, nm)
         progs[nm + "#sig"] = sig
@@ -793,6 +805,8 @@ def _sec0(ctx, fixed, corpus):
         "getitem_classical": "(emit getitem 0)", "getitem_classical_fixed": "(emit getitem 0)",
         "getitem_linear": "(emit getitem 1)", "setitem_classical": "(emit setitem 0)",
         "setitem_linear": "(emit setitem 1)", "inout_linear": "(emit inout cal)", "copy_classical": "(emit copy)",
+        # element type non-copyable in Guppy but copyable in Hugr: must still be borrow ... return (fixed in /repo a31acc9)
+        "inout_affine_custom": "(emit inout use)",
     }
     names = list(emit_reqs)
     extra_reqs = ["(emit discard 0)", "(emit discard 1)", "(emit compbody)"]
@@ -803,6 +817,15 @@ def _sec0(ctx, fixed, corpus):
         ctx.count({"probe": k, "extracted": real}, nontrivial=True, kind="probe:" + k)
         if real != model_emit[k]:
             ctx.broke(f"T-obj: lowering of probe `{k}` differs from the model's emission (real={real} model={model_emit[k]})")
+    # the two borrowing-call probes on a concrete array: element 1 must come back updated, nothing else touched
+    for k in ("inout_linear", "inout_affine_custom"):
+        got = py_run(fixed[k], [("arr", (10, 20, 30)), ("int", 1)])
+        want = ("ok", [("arr", (10, 20 + CALL_OFFSET, 30))])
+        if got != want:
+            ctx.violation(f"input:probe {k}", f"probe `{k}`: callee(xs[1]) on [10, 20, 30] through the lowered op list "
+                          f"{_sexp(fixed[k])} gives {show_result(got)}, expected {show_result(want)}",
+                          {"case": {"kind": "probe", "name": k}, "extracted": _sexp(fixed[k]), "real": show_result(got),
+                           "oracle": show_result(want)})
     # signatures: borrowed array is appended to the outputs
     exp_sig = {"getitem_classical": (2, 2), "setitem_classical": (3, 1), "inout_linear": (2, 1), "copy_classical": (1, 2)}
     for k, sg in exp_sig.items():
